@@ -19,6 +19,10 @@ type Step struct {
 	Kind  string           `json:"kind"` // "cycle" | "env"
 	Cfg   *schedrun.Config `json:"cfg,omitempty"`
 	Event string           `json:"event,omitempty"`
+	// Evicts: evictions decided in this cycle (informational; used by lasso oracles).
+	Evicts int `json:"evicts,omitempty"`
+	// EvictSig: "action:victimGroup->preemptorGroup" per eviction (informational).
+	EvictSig []string `json:"evict_sig,omitempty"`
 }
 
 func (s Step) String() string {
@@ -267,7 +271,15 @@ func (f *Family) Explore(scn *Scenario, tier string, maxStates int) *ScenarioSta
 					succ = succ.Clone()
 					applyMacroEnv(succ, f.Env)
 				}
-				push(succ, Step{Kind: "cycle", Cfg: &cfgCopy})
+				nEv := 0
+				var sig []string
+				for _, d := range res.Decisions {
+					if d.Kind == "evict" {
+						nEv++
+						sig = append(sig, d.Action+":"+d.Group+"->"+d.Preemptor)
+					}
+				}
+				push(succ, Step{Kind: "cycle", Cfg: &cfgCopy, Evicts: nEv, EvictSig: sig})
 				// derive fault variants from the decisions actually made
 				if j.level < faultDepth {
 					for _, d := range res.Decisions {
